@@ -106,7 +106,7 @@ func NewEncryptedISO(f afero.File, data1 []byte, clearRegions bool) (*EncryptedI
 	}
 
 	var prevRegionEnd uint32
-	encryptedRegions := make([]region, hdr.Count-1)
+	encryptedRegions := make([]region, 0, hdr.Count-1)
 	for i, unencryptedRegion := range unencryptedRegions {
 		// some sanity checks: region "borders" must increase monotonically
 		if unencryptedRegion.End <= unencryptedRegion.Start {
@@ -124,8 +124,9 @@ func NewEncryptedISO(f afero.File, data1 []byte, clearRegions bool) (*EncryptedI
 		}
 
 		// encrypted region placed between previous unencrypted region and current unencrypted region
+		// end sector of unencrypted region is inclusive (last unencrypted sector)
 		encryptedRegions = append(encryptedRegions, region{
-			start: sizeSectors(unencryptedRegions[i-1].End),
+			start: sizeSectors(unencryptedRegions[i-1].End) + 1,
 			end:   sizeSectors(unencryptedRegion.Start),
 		})
 	}
